@@ -343,14 +343,17 @@ def validation_cases():
         # the entry points below VmStack.serialize, on the first value
         if st:
             v = V.mk_lib(cx, st[0])
+            # a continuation's stacks are reached through attributes and a copy: their state is outside the regenerated
+            # post-state (accounted for by the callee's theorem), so only the cell is compared there
+            op = 'servk' if str(st[0][0]).startswith('k') else 'serv'
             try:
                 c1 = lib.VmStackValue.serialize(v)
-                r = f'ok {c1.hash.hex()} {V.canon_stack([v])}'
+                r = f'ok {c1.hash.hex()}' + ('' if op == 'servk' else f' {V.canon_stack([v])}')
             except RecursionError:
                 raise
             except Exception:
                 r = 'err'
-            ser.append((f'serv {cx.dag_arg()} {V.stack_tokens(cx, [st[0]])}', r))
+            ser.append((f'{op} {cx.dag_arg()} {V.stack_tokens(cx, [st[0]])}', r))
         if c is not None:
             nodes, root = V.flatten(c)
             de.append((nodes, root))
@@ -474,6 +477,7 @@ def runLine (mode : String) (l : String) : String :=
   match l.splitOn " " with
   | ["ser", d, s] => if mode == "val" then genSer d s else (if genSer d s == modSer d s then "same" else "DIFF")
   | ["serv", d, s] => if mode == "val" then genSerV d s else (if genSerV d s == modSerV d s then "same" else "DIFF")
+  | ["servk", d, s] => if mode == "val" then " ".intercalate ((genSerV d s).splitOn " " |>.take 2) else (if genSerV d s == modSerV d s then "same" else "DIFF")
   | ["de", d, n] => if mode == "val" then genDe d n else (if genDe d n == modDe d n then "same" else "DIFF")
   | _ => "bad-op"
 """
